@@ -1,7 +1,7 @@
 SPECIFICATION Spec
 CONSTANTS
   Dev = {}
-  Families <- QuickFamilies
+  Families <- LiveFamilies
   ExtraStarts = {5, 7, 130}
 INVARIANT SizeBound
 INVARIANT RspWellFormed
@@ -12,4 +12,5 @@ INVARIANT Complete
 INVARIANT NoException
 INVARIANT MoreFlag
 INVARIANT Individual
+PROPERTY ChainTerminates
 CHECK_DEADLOCK FALSE
